@@ -862,6 +862,128 @@ do_record (long *v, int nv, int local_only)
 }
 
 /* ------------------------------------------------------------------ */
+/* kind 22: [22, seed, nhist, nsteps] - direction B for the object: the driver itself draws random legal call
+ * histories over the pool (kind 8 lines), runs them on one real eav_t and records every call at its return
+ * in histtrace.ndjson; Trace_Eav replays the events through the object model of spec/Eav.tla. */
+static unsigned long long rng_s;
+static unsigned rnd (unsigned n) { rng_s = rng_s * 6364136223846793005ULL + 1442695040888963407ULL; return (unsigned) ((rng_s >> 33) % n); }
+
+static void
+put_cstr_bytes (FILE *f, const char *s)
+{
+    fputc ('[', f);
+    for (int i = 0; s && s[i]; i++) fprintf (f, i ? ",%d" : "%d", (unsigned char) s[i]);
+    fputc (']', f);
+}
+
+static void
+do_random_histories (long *v, int nv)
+{
+    char path[600];
+    FILE *f;
+    int nhist = (int) v[2], nsteps = (int) v[3], npool = 0;
+    if (nv != 4) die ("bad random-history vector");
+    for (int i = 1; i < POOL_MAX; i++) if (pool_b[i]) npool = i;
+    if (!npool) die ("empty pool");
+    rng_s = (unsigned long long) v[1] * 2654435761ULL + 12345;
+    snprintf (path, sizeof path, "%s/histtrace.ndjson", outdir);
+    if (!(f = fopen (path, "w"))) die ("open histtrace");
+    for (int h = 0; h < nhist; h++) {
+        eav_t *ev = malloc (sizeof *ev);
+        int live = 0, confirmed = 0;
+        fprintf (f, "{\"e\":\"reset\"}\n");
+#ifdef VERIF_WRAP
+        wrap_reset (); wrap_track = 1;
+#endif
+        for (int k = 0; k < nsteps; k++) {
+            unsigned r = rnd (100);
+            cnt.calls++;
+            if (!live) { eav_init (ev); live = 1; confirmed = 0; fprintf (f, "{\"e\":\"init\"}\n"); continue; }
+            if (r < 50 && confirmed) {
+                int idx = 1 + (int) rnd (npool), ret, fret;
+                const unsigned char *a = pool_b[idx];
+                int n = pool_n[idx], at = -1;
+                eav_t fr;
+                long *lb = malloc ((n + 1) * sizeof (long));
+                const char *p = place_bytes (a, n, k & 1), *msg;
+                for (int i = 0; i < n; i++) lb[i] = a[i];
+                ret = eav_is_email (ev, p, n);
+                msg = eav_errstr (ev);
+                fprintf (f, "{\"e\":\"is_email\",\"in\":");
+                put_ubytes (f, a, n);
+                fprintf (f, ",\"ret\":%d,\"err\":%d,\"rc\":%d,\"fl\":%d,\"idn\":%d,\"msg\":", ret, ev->errcode, ev->result->rc,
+                         res_flags (ev->result), (int) ev->result->idn_rc);
+                put_cstr_bytes (f, msg);
+                fprintf (f, ",\"msgidn\":%d", (msg && ev->result->idn_rc != 0 && strcmp (msg, IDN_MSG (ev->result->idn_rc)) == 0) ? 1 : 0);
+                /* the same call on a fresh object with the same public settings and the confirmed mode */
+                eav_init (&fr);
+                fr.rfc = (EAV_RFC) (confirmed - 1); fr.tld_check = ev->tld_check; fr.allow_tld = ev->allow_tld;
+                if (eav_setup (&fr) != 0) die ("fresh setup");
+                fret = eav_is_email (&fr, p, n);
+                fprintf (f, ",\"fresh\":[%d,%d,%d,%d]", fret, fr.errcode, fr.result->rc, res_flags (fr.result));
+                eav_free (&fr);
+                unplace ();
+                for (int i = 0; i < n; i++) if (a[i] == '@') at = i;
+                if (at >= 0 && at + 1 < n && a[at + 1] != '[') {
+                    char *out = NULL;
+                    int code = idn2_to_ascii_8z ((const char *) a + at + 1, &out, IDN2_NONTRANSITIONAL);
+                    fprintf (f, ",\"cc\":%d,\"co\":", code);
+                    if (code == IDN2_OK && out) put_ubytes (f, (unsigned char *) out, (int) strlen (out)); else fputs ("[]", f);
+                    if (out) free (out);
+                }
+                fputs ("}\n", f);
+                free (lb);
+                cnt.checked++;
+            } else if (r < 62) {
+                static const int vals[] = { 0, 1, 2, 3, 0, 1, 2, 3, 3, 4, 7, -1 };
+                int val = vals[rnd (12)];
+                ev->rfc = (EAV_RFC) val;
+                fprintf (f, "{\"e\":\"set_rfc\",\"v\":%d}\n", val);
+            } else if (r < 76) {
+                int ret = eav_setup (ev);
+                if (ret == 0) confirmed = (int) ev->rfc + 1;
+                fprintf (f, "{\"e\":\"setup\",\"ret\":%d}\n", ret);
+                cnt.checked++;
+            } else if (r < 81) {
+                ev->tld_check = rnd (2);
+                fprintf (f, "{\"e\":\"set_tld\",\"v\":%d}\n", ev->tld_check ? 1 : 0);
+            } else if (r < 87) {
+                static const int masks[] = { 0x2f8, 0x7fc, 0, 0x8, 0x10, 0x200, 0x2f8 ^ 0x20, 0x404 };
+                ev->allow_tld = masks[rnd (8)];
+                fprintf (f, "{\"e\":\"set_allow\",\"v\":%d}\n", ev->allow_tld);
+            } else if (r < 95) {
+                const char *msg = eav_errstr (ev);
+                fprintf (f, "{\"e\":\"errstr\",\"err\":%d,\"msg\":", ev->errcode);
+                put_cstr_bytes (f, msg);
+                fprintf (f, ",\"null\":%d}\n", msg == NULL);
+                cnt.checked++;
+            } else {
+                eav_free (ev);
+                live = 0;
+#ifdef VERIF_WRAP
+                fprintf (f, "{\"e\":\"free\",\"live\":%ld,\"badfree\":%ld}\n", wrap_live_allocs (), wrap_bad_free);
+#else
+                fprintf (f, "{\"e\":\"free\",\"live\":0,\"badfree\":0}\n");
+#endif
+            }
+        }
+        if (live) {
+            eav_free (ev);
+#ifdef VERIF_WRAP
+            fprintf (f, "{\"e\":\"free\",\"live\":%ld,\"badfree\":%ld}\n", wrap_live_allocs (), wrap_bad_free);
+#else
+            fprintf (f, "{\"e\":\"free\",\"live\":0,\"badfree\":0}\n");
+#endif
+        }
+#ifdef VERIF_WRAP
+        wrap_track = 0;
+#endif
+        free (ev);
+    }
+    fclose (f);
+}
+
+/* ------------------------------------------------------------------ */
 int
 main (int argc, char **argv)
 {
@@ -895,6 +1017,7 @@ main (int argc, char **argv)
         case 16: do_oracle (v, nv); break;
         case 17: do_idn (v, nv); break;
         case 18: do_record (v, nv, 0); break;
+        case 22: do_random_histories (v, nv); break;
         case 19: do_record (v, nv, 1); break;
         case 14: do_robust (v, nv, 0); break;
         case 10: do_defaults (v, nv); break;
